@@ -2,6 +2,7 @@
 package checks
 
 import (
+	"encoding/json"
 	"fmt"
 	"sort"
 	"strconv"
@@ -116,6 +117,30 @@ func parseDec(lex string) (*sdcpb.Decimal64, bool) {
 
 // MkTV builds the typed value a client would send for the leaf.
 func MkTV(n *world.Node, lex string, form string) *sdcpb.TypedValue {
+	if form == "jsonleaf" || form == "jsonleaf_ietf" {
+		// a JSON / JSON_IETF scalar (or array, for a leaf-list) given directly on the leaf's own path
+		ietf := form == "jsonleaf_ietf"
+		var v any
+		switch n.Kind {
+		case world.KContainer:
+			v = map[string]any{}
+		case world.KLeafList:
+			arr := []any{}
+			if lex != "" {
+				for _, e := range strings.Split(lex, ",") {
+					arr = append(arr, jsonScalar(n, e, ietf))
+				}
+			}
+			v = arr
+		default:
+			v = jsonScalar(n, lex, ietf)
+		}
+		b, _ := json.Marshal(v)
+		if ietf {
+			return &sdcpb.TypedValue{Value: &sdcpb.TypedValue_JsonIetfVal{JsonIetfVal: b}}
+		}
+		return &sdcpb.TypedValue{Value: &sdcpb.TypedValue_JsonVal{JsonVal: b}}
+	}
 	switch n.Kind {
 	case world.KContainer:
 		return &sdcpb.TypedValue{Value: &sdcpb.TypedValue_EmptyVal{EmptyVal: &emptypb.Empty{}}}
